@@ -63,20 +63,20 @@ def _num(x):
   return isinstance(x, (int, float)) and not isinstance(x, bool)
 
 
-def close(a, b):
+def close(a, b, rtol=RTOL, atol=ATOL):
   if _num(a) and _num(b):
     fa, fb = float(a), float(b)
     if math.isnan(fa) or math.isnan(fb):
       return math.isnan(fa) and math.isnan(fb)
     if math.isinf(fa) or math.isinf(fb):
       return fa == fb
-    return abs(fa - fb) <= ATOL + RTOL * abs(fb)
+    return abs(fa - fb) <= atol + rtol * abs(fb)
   return None
 
 
-def diff(a, b, path=''):
+def diff(a, b, path='', rtol=RTOL, atol=ATOL):
   """First path at which two plain values differ, else None."""
-  c = close(a, b)
+  c = close(a, b, rtol, atol)
   if c is not None:
     return None if c else (path or '.')
   if type(a) is not type(b) and not (_num(a) and _num(b)):
@@ -88,7 +88,7 @@ def diff(a, b, path=''):
     if sorted(a) != sorted(b):
       return (path or '.') + ':keys'
     for k in a:
-      d = diff(a[k], b[k], f'{path}/{k}')
+      d = diff(a[k], b[k], f'{path}/{k}', rtol, atol)
       if d:
         return d
     return None
@@ -96,21 +96,22 @@ def diff(a, b, path=''):
     if len(a) != len(b):
       return (path or '.') + ':len'
     for i, (x, y) in enumerate(zip(a, b)):
-      d = diff(x, y, f'{path}[{i}]')
+      d = diff(x, y, f'{path}[{i}]', rtol, atol)
       if d:
         return d
     return None
   return None if a == b else (path or '.')
 
 
-def diff_components(a, b):
+def diff_components(a, b, rtol=RTOL, atol=ATOL):
   """Names of the top-level components (dict keys) that differ; [] if equal.
 
   Non-dict values, or dicts with different key sets, give ['.'].
   """
   if isinstance(a, dict) and isinstance(b, dict) and sorted(a) == sorted(b):
-    return [k for k in sorted(a) if diff(a[k], b[k]) is not None]
-  return [] if diff(a, b) is None else ['.']
+    return [k for k in sorted(a)
+            if diff(a[k], b[k], '', rtol, atol) is not None]
+  return [] if diff(a, b, '', rtol, atol) is None else ['.']
 
 
 def digest(x):
@@ -169,6 +170,27 @@ class Entry:
   classify: Callable[[tuple], str] | None = None  # dataset -> narrow input class
   bfs_batches: tuple | None = None   # (b1, b2) as tuples of alphabet indices
   randomized_oracle: Callable[[dict, tuple], list] | None = None
+  tol: dict | None = None        # component -> (rtol, atol); default RTOL, ATOL
+  offset: bool = False           # large-offset alphabet (C01 only)
+
+  def _tol(self, comp):
+    return (self.tol or {}).get(comp, (RTOL, ATOL))
+
+  def diff_components(self, a, b):
+    """diff_components() with this entry's per-component tolerances."""
+    if not self.tol:
+      return diff_components(a, b)
+    if isinstance(a, dict) and isinstance(b, dict) and sorted(a) == sorted(b):
+      return [k for k in sorted(a)
+              if diff(a[k], b[k], '', *self._tol(k)) is not None]
+    return diff_components(a, b)
+
+  def diff(self, a, b):
+    comps = self.diff_components(a, b)
+    if not comps or comps == ['.']:
+      return diff(a, b) if comps else None
+    k = comps[0]
+    return diff(a[k], b[k], f'/{k}', *self._tol(k))
 
   @property
   def key(self):
@@ -758,18 +780,150 @@ def _build():
   return E
 
 
+# --------------------------------------------------------------------------
+# large-offset alphabets (C01): |value| >> spread
+# --------------------------------------------------------------------------
+#
+# The property holds "up to floating-point rounding".  The alphabets above are
+# small integers, for which every formula is exact; a merge formula that is
+# algebraically right but cancels catastrophically (raw second moments,
+# E[x^2] - mean^2) is only visible when the values are far from zero compared
+# with their spread.  Every accumulator whose result is a numeric statistic is
+# therefore listed a second time over rows offset + {0, 1, 3} (offset 1e8) and
+# offset + {0, 2, 5} (offset 1.7e9, epoch seconds), 2-D with a large-offset
+# column next to a small column and NaN entries and a negative offset.
+#
+# Tolerances: what a numerically sane implementation meets, measured on the
+# unchanged tree (worst observed relative deviation from the one-batch result
+# over the whole enumerated space, see TOL_* below), plus >= 2 orders of
+# magnitude; a cancelling formula is off by >= 1e-1 relative on these rows.
+
+OFF_A = 1e8
+OFF_B = 1.7e9
+# mean of values ~1e8..1.7e9: a few ulp (observed <= 2.9e-16 relative)
+TOL_MEAN = (1e-13, 0.0)
+# var of values with spread ~1 at 1e8 / ~2 at 1.7e9 (observed: see c01 notes)
+TOL_VAR = (1e-5, 1e-9)
+TOL_EXACT = (0.0, 0.0)
+
+
+def _build_offset():
+  E = []
+
+  def add(**kw):
+    E.append(Entry(offset=True, sig_tag='large-offset', **kw))
+
+  def rs():
+    from ml_metrics._src.aggregates import rolling_stats
+    return rolling_stats
+
+  def ut():
+    from ml_metrics._src.aggregates import utils
+    return utils
+
+  def agg_of(factory):
+    return lambda: factory().as_agg_fn()
+
+  a1 = (OFF_A, OFF_A + 1.0, OFF_A + 3.0)
+  b1 = (OFF_B, OFF_B + 2.0, OFF_B + 5.0)
+  # large-offset column | small column with NaN | negative offset with NaN
+  mixed = ((OFF_A, 1.0, -3e8), (OFF_A + 1.0, NAN, -3e8 + 0.5),
+           (OFF_A + 3.0, 5.0, NAN))
+  mv_tol = {'mean': TOL_MEAN, 'var': TOL_VAR, 'count': TOL_EXACT}
+  for cls, canon in (('Mean', _canon_mean), ('MeanAndVariance', _canon_mv),
+                     ('Var', _canon_var)):
+    def mk(cls=cls):
+      return lambda: getattr(rs(), cls)()
+    for cfg, alpha, tb in (('1d,offset=1e8', a1, col),
+                           ('1d,offset=1.7e9', b1, col),
+                           ('2d,offset=(1e8|small+nan|-3e8+nan)', mixed,
+                            arr2d(3))):
+      add(name=cls, cfg=cfg, family='rolling', alphabet=alpha, to_batch=tb,
+          factory=mk(), aggfn_factory=agg_of(mk()), canon=canon,
+          classify=_has_nan_class, tol=mv_tol)
+
+  def mmc(**kw):
+    return lambda: rs().MinMaxAndCount(**kw)
+  exact3 = {'count': TOL_EXACT, 'min': TOL_EXACT, 'max': TOL_EXACT}
+  add(name='MinMaxAndCount', cfg='axis=None,offset=1.7e9', family='rolling',
+      alphabet=b1, to_batch=col, factory=mmc(), aggfn_factory=agg_of(mmc()),
+      canon=_canon_minmax, tol=exact3)
+  add(name='MinMaxAndCount', cfg='axis=0,2d,offset=(1e8|1.7e9)',
+      family='rolling',
+      alphabet=((OFF_A, OFF_B + 5.0), (OFF_A + 1.0, OFF_B),
+                (OFF_A + 3.0, OFF_B + 2.0)),
+      to_batch=arr2d(2), factory=mmc(axis=0), aggfn_factory=agg_of(mmc(axis=0)),
+      canon=_canon_minmax, tol=exact3)
+
+  def hist(**kw):
+    return lambda: rs().Histogram(**kw)
+  add(name='Histogram', cfg='range=(1e8,1e8+4),bins=2', family='rolling',
+      alphabet=(OFF_A + 0.5, OFF_A + 2.0, OFF_A + 4.0), to_batch=col,
+      factory=hist(range=(OFF_A, OFF_A + 4), bins=2),
+      aggfn_factory=agg_of(hist(range=(OFF_A, OFF_A + 4), bins=2)),
+      empty_batch_ok=True)
+  add(name='Histogram', cfg='range=(1.7e9,1.7e9+6),bins=3,weights',
+      family='rolling',
+      alphabet=((OFF_B, 2.0), (OFF_B + 2.0, 0.5), (OFF_B + 5.0, 1.0)),
+      to_batch=cols(2), factory=hist(range=(OFF_B, OFF_B + 6), bins=3),
+      aggfn_factory=agg_of(hist(range=(OFF_B, OFF_B + 6), bins=3)))
+
+  # pointwise 2|x-y|/|x+y| ~ 1e-8: sum / n
+  add(name='SymmetricPredictionDifference', cfg='offset=(1e8,1.7e9)',
+      family='rolling',
+      alphabet=((OFF_A + 1.0, OFF_A + 3.0), (OFF_A, OFF_A),
+                (OFF_B + 2.0, OFF_B - 3.0)),
+      to_batch=cols(2),
+      factory=lambda: rs().SymmetricPredictionDifference(),
+      aggfn_factory=agg_of(lambda: rs().SymmetricPredictionDifference()),
+      empty_batch_ok=True, tol={'value': (1e-12, 0.0)})
+
+  # reflective correlation sum(xy)/sqrt(sum(xx) sum(yy)): no cancellation.
+  # (center=True is E[xy]-E[x]E[y] by construction, in one batch as well: its
+  # one-batch result is itself noise at this offset, nothing to compare with.)
+  add(name='RRegression', cfg='center=False,x-1d,offset=1e8', family='rolling',
+      alphabet=((OFF_A, 2.0), (OFF_A + 1.0, 1.0), (OFF_A + 3.0, 5.0)),
+      to_batch=lambda rows: (np.asarray([r[0] for r in rows], dtype=float),
+                             np.asarray([r[1] for r in rows], dtype=float)),
+      factory=lambda: rs().RRegression(center=False),
+      aggfn_factory=agg_of(lambda: rs().RRegression(center=False)),
+      tol={'value': (1e-12, 0.0)})
+
+  add(name='MeanState', cfg='scalar,offset=1.7e9', family='helpers',
+      alphabet=b1, to_batch=col, factory=lambda: ut().MeanState(),
+      empty_batch_ok=True, tol={'value': TOL_MEAN})
+  add(name='MeanState', cfg='vector,offset=(1e8|small)', family='helpers',
+      alphabet=((OFF_A, 0.0), (OFF_A + 1.0, 2.0), (OFF_A + 3.0, 1.0)),
+      to_batch=arr2d(2), factory=lambda: ut().MeanState(),
+      tol={'value': TOL_MEAN})
+  add(name='TupleMeanState', cfg='two-inputs,offset=(1e8,1.7e9)',
+      family='helpers',
+      alphabet=((OFF_A, OFF_B + 5.0), (OFF_A + 1.0, OFF_B), (OFF_A + 3.0, OFF_B + 2.0)),
+      to_batch=cols(2), factory=lambda: ut().TupleMeanState(),
+      tol={'value': TOL_MEAN})
+  return E
+
+
 _CATALOGUE = None
+_OFFSET = None
 
 
-def catalogue():
-  global _CATALOGUE
+def catalogue(offset=False):
+  """The catalogue; offset=True adds the large-offset entries (C01)."""
+  global _CATALOGUE, _OFFSET
   if _CATALOGUE is None:
     entries = _build()
     keys = [e.key for e in entries]
     assert len(set(keys)) == len(keys), 'duplicate catalogue keys'
     _CATALOGUE = {e.key: e for e in entries}
-  return _CATALOGUE
+  if not offset:
+    return _CATALOGUE
+  if _OFFSET is None:
+    extra = {e.key: e for e in _build_offset()}
+    assert not set(extra) & set(_CATALOGUE), 'duplicate catalogue keys'
+    _OFFSET = dict(_CATALOGUE, **extra)
+  return _OFFSET
 
 
 def entry(key) -> Entry:
-  return catalogue()[key]
+  return catalogue(offset=True)[key]
